@@ -17,6 +17,7 @@
 #include "units.c"
 #include "expression.c"
 #include <inttypes.h>
+#include <errno.h>
 #include <stdarg.h>
 #include <locale.h>
 #include <signal.h>
@@ -473,6 +474,10 @@ int main(void) {
     setlocale(LC_ALL, "C");
     while (fgets(line, sizeof line, stdin)) {
         line[strcspn(line, "\n")] = 0; alarm(10);
+        /* every case starts from a defined errno: 0, or ERANGE for a case line prefixed with "Z " (what the firmware's own strtol/pow
+           calls or an earlier case may leave behind; the library must not depend on it).  What one case leaves behind never decides
+           the next one, so a replay of a single case reproduces. */
+        if (line[0] == 'Z' && line[1] == ' ') { memmove(line, line + 2, strlen(line + 2) + 1); errno = ERANGE; } else errno = 0;
         if (line[0] == 'S' && line[1] == ' ') { oput("S", 1); run_scenario(line); }
         else if (!strncmp(line, "LEX ", 4)) run_lex(line);
         else if (!strncmp(line, "MATCH ", 6)) run_match(line);
